@@ -17,6 +17,7 @@ def extra(work, v, thorough):
 
 PLAN = {
     "api": True,
+    "lin": True,
     "mc": [("StoreMC_acct.cfg", False), ("StoreMC_d16.cfg", False)],
     "sims": [("StoreSim_seq.cfg", 250, 2500, 91), ("StoreSim_seqdoor.cfg", 100, 800, 91), ("StoreSim_delta.cfg", 800, 6000, 46)],
     "drivers": [("TestVerif_StoreFree", 4, 30, "store_free.ndjson", None), ("TestVerif_StoreLoad", 20, 200, "store_load.ndjson", None)],
